@@ -137,6 +137,9 @@ double DownhillSimplexMethod::doStep()
     }
   }
 
+  // When all vertices have the same value the highest vertex is also the 'lowest' one, and it may
+  // just have been replaced: report the point that goes with the value returned.
+  getParameters_() = simplex_[iLowest_];
   return y_[iLowest_];
 }
 
